@@ -130,7 +130,7 @@ theorem mark_counter (t : Tracker) (k k' : Key) :
   · simp only [h, if_false, Tracker.counter, aget_aset]
 
 theorem mark_counter_other (t : Tracker) (k k' : Key) (h : k ≠ k') : (t.mark k).counter k' = t.counter k' := by
-  rw [mark_counter]; split <;> simp [h]
+  rw [mark_counter]; split <;> simp_all
 
 theorem mark_ok (t : Tracker) (k : Key) (h : TrackerOk t) : TrackerOk (t.mark k) := by
   intro k'
@@ -158,15 +158,19 @@ theorem mark_counter_self (t : Tracker) (k : Key) (h : t.active ≠ 0) : t.globa
 
 @[simp] theorem register_counter (t : Tracker) (k k' : Key) : ((t.register k).1).counter k' = t.counter k' := rfl
 @[simp] theorem register_global (t : Tracker) (k : Key) : ((t.register k).1).global = t.global := rfl
-@[simp] theorem register_active (t : Tracker) (k : Key) : ((t.register k).1).active = (t.active + 1) % two64 := by
-  simp [Tracker.register]
+theorem register_active (t : Tracker) (k : Key) : ((t.register k).1).active = (t.active + 1) % two64 := by
+  unfold Tracker.register
+  rfl
 @[simp] theorem register_base (t : Tracker) (k : Key) : (t.register k).2 = t.counter k := rfl
 @[simp] theorem unregister_counter (t : Tracker) (k' : Key) : (t.unregister).counter k' = t.counter k' := by
-  simp [Tracker.unregister, Tracker.counter]
+  unfold Tracker.unregister Tracker.counter
+  rfl
 @[simp] theorem unregister_global (t : Tracker) : (t.unregister).global = t.global := by
-  simp [Tracker.unregister]
-@[simp] theorem unregister_active (t : Tracker) : (t.unregister).active = (t.active + (two64 - 1)) % two64 := by
-  simp [Tracker.unregister]
+  unfold Tracker.unregister
+  rfl
+theorem unregister_active (t : Tracker) : (t.unregister).active = (t.active + (two64 - 1)) % two64 := by
+  unfold Tracker.unregister
+  rfl
 
 /-! ### `markKey` -/
 
